@@ -58,3 +58,17 @@ Proof.
   destruct l as [|x r]; cbn [skipn plus]; [destruct a; reflexivity|apply IH].
 Qed.
 
+
+Lemma nth_firstn' {A} (d : A) : forall (n k : nat) (l : list A),
+  nth k (firstn n l) d = if (k <? n)%nat then nth k l d else d.
+Proof.
+  induction n as [|n IH]; intros k l; [destruct k; reflexivity|].
+  destruct l as [|x r]; [cbn [firstn]; destruct k; destruct (Nat.ltb _ _); reflexivity|].
+  destruct k as [|k]; [reflexivity|]. cbn [firstn nth]. rewrite IH. reflexivity.
+Qed.
+
+Lemma nth_skipn' {A} (d : A) : forall (n k : nat) (l : list A), nth k (skipn n l) d = nth (n + k) l d.
+Proof.
+  induction n as [|n IH]; intros k l; [reflexivity|]. destruct l as [|x r]; [destruct k; reflexivity|].
+  cbn [skipn plus nth]. apply IH.
+Qed.
